@@ -25,6 +25,8 @@ _PURE = {
     'left_shift', 'right_shift', 'bitwise_and', 'bitwise_or', 'bitwise_xor', 'packbits', 'unpackbits', 'power',
     'uint8', 'uint16', 'uint32', 'uint64', 'int8', 'int16', 'int32', 'int64', 'uint', 'int_', 'float64', 'bool_',
     'flatnonzero', 'searchsorted', 'multiply', 'subtract', 'divide', 'floor_divide', 'remainder', 'sign', 'square',
+    'vdot', 'inner', 'matmul', 'tensordot', 'einsum', 'trace', 'count_nonzero', 'intersect1d', 'in1d', 'isin', 'bincount',
+    'atleast_1d', 'select', 'choose', 'clip', 'logical_and', 'not_equal', 'equal', 'greater', 'less',
 }
 
 
